@@ -474,7 +474,7 @@ func (n *Node) teardown() error {
 		_ = os.Remove(n.scriptFile.Name())
 	}
 	if lastErr != nil {
-		n.data.State.Error = lastErr
+		n.SetError(lastErr)
 	}
 	return lastErr
 }
